@@ -137,6 +137,11 @@ def engine_check(prop, tier, seed, run_fn, table, assumptions, driver, checker):
                          time.time() - t0, 1)
         return 1
     n_obl, n_dis, broken = proof_status(prop, st)
+    chk = None
+    if tier == "thorough" and st["coq_ok"]:
+        chk = B.coqchk(prop)
+        if not chk["ok"]:
+            broken.append("coqchk does not accept Props/%s.vo: rc=%s axioms=%s flags=%s" % (prop, chk["rc"], chk["axioms"], chk["flags"]))
     if not st["ocaml_ok"]:
         broken.append("extraction / OCaml checker build failed: " + st["ocaml_log"][-400:])
     run = run_fn(tier, seed) if st["ocaml_ok"] else {"reports": [], "summaries": [], "wall_s": 0, "cached": False}
@@ -210,6 +215,7 @@ def engine_check(prop, tier, seed, run_fn, table, assumptions, driver, checker):
         "theorems": a.get("theorems", []),
         "print_assumptions": "Closed under the global context x%d" % a.get("closed", 0) + ("; axioms: " + ",".join(a.get("axioms", [])) if a.get("axioms") else ""),
         "proof_broken": broken,
+        "coqchk": ({"axioms": chk["axioms"] or ["<none>"], "flags": chk["flags"], "accepted": chk["ok"]} if chk else "thorough tier only"),
         "evaluations": tot["histories"],
         "distinct_nontrivial": tot["distinct_nontrivial"],
         "rule": RULES.get(driver, RULES["arena_driver"]),
